@@ -56,6 +56,7 @@ TBegin == /\ HasLine("B")
                 /\ L.src = f.src /\ L.tgt = f.tgt /\ L.evn = f.ev
                 /\ L.st = (IF SeesSource(f.phase) THEN f.src ELSE f.tgt)
                 /\ L.nest = NumTrig(m) - 1
+                /\ L.pslot \in {0, L.i}      \* the provider object belongs to this instance
           /\ Consume
 
 TEnd == /\ HasLine("E")
@@ -81,6 +82,8 @@ ProjOK(j, p) ==
             /\ p.state = ProjState(d, m)
             /\ p.allowed = ProjAllowed(d, m)
             /\ SeqToSet(p.active) = ProjActive(d, m)
+            /\ p.events = d.events
+            /\ p.modelok
 
 TRet == /\ HasLine("ret")
         /\ Return(L.i)
